@@ -60,7 +60,7 @@ pub fn meta(prop: &str) -> Option<Meta> {
 pub fn run_case(prop: &str, index: u64, case_seed: u64, acc: &mut Acc) {
     acc.cur_index = index;
     match prop {
-        "C01" => c01::run(case_seed, acc),
+        "C01" => c01::run_indexed(index, case_seed, acc),
         "C02" => dynamic::c02(case_seed, acc),
         "C03" => dynamic::c03(case_seed, acc),
         "C04" => dynamic::c04(case_seed, acc),
@@ -89,6 +89,7 @@ pub fn run_exhaustive(prop: &str, tier: &str, acc: &mut Acc) -> Value {
     match prop {
         "C01" => c01::exhaustive(tier, acc),
         "C03" => dynamic::c03_exhaustive(acc),
+        "C04" => dynamic::fixture_counter(acc),
         "C05" => dynamic::c05_exhaustive(tier, acc),
         "C08" => values::c08_exhaustive(tier, acc),
         "C09" => text::c09_exhaustive(tier, acc),
